@@ -59,7 +59,7 @@ macro_rules! impl_vec1view_for_ndarray {
 
             #[inline]
             fn try_as_slice(&self) -> Option<&[T]> {
-                self.as_slice_memory_order()
+                self.as_slice()
             }
 
             #[inline]
